@@ -236,7 +236,15 @@ def run_problem(name, p, variant, tout, laws):
             if variant == "job-x0-file":
                 ekw["x0"] = field
                 ekw["filename"] = "c07_%s.xdmf" % name
-            job.evaluate(verbose=0, **ekw)
+            if variant == "job-verbose":          # the printing paths of Job and newtonrhapson (output discarded)
+                import contextlib
+                import io
+                with contextlib.redirect_stdout(io.StringIO()):
+                    job.evaluate(verbose=2, **ekw)
+            elif variant == "job-parallel":       # threaded assembly
+                job.evaluate(verbose=0, parallel=True, **ekw)
+            else:
+                job.evaluate(verbose=0, **ekw)
             if variant == "two-jobs":
                 step2 = fem.Step(items=items, ramp={m: np.array(ramp[::-1]) for m in movers}, boundaries=bounds)
                 step = step2
@@ -358,9 +366,9 @@ def main():
     a2.out = a.out + "-laws"
     laws = Out(a2)
     P = problems(a.tier)
-    variants = ["job", "newton", "job-x0-file", "job-fail", "two-jobs"]
+    variants = ["job", "newton", "job-x0-file", "job-fail", "two-jobs", "job-verbose", "job-parallel"]
     for n, (name, p) in enumerate(sorted(P.items())):
-        vs = variants if a.tier == "thorough" else [variants[0], variants[1 + n % 4]]
+        vs = variants if a.tier == "thorough" else [variants[0], variants[1 + n % 6]]
         for v in vs:
             run_problem(name, p, v, tout, laws)
     partitioned(laws, a.tier, a.seed)
